@@ -221,10 +221,14 @@ class PushGraph:
                     continue
                 vs = self._state_variants(body, defs, t["xs"][1])
                 if vs is None:
+                    vs = self._param_state_variants(node, body, t["xs"][1])
+                if vs is None:
                     self.unknown.append((node, site))
                     continue
                 for v, vbb, vsi in vs:
                     out.append((("S", v), h, site))
+                    if vbb < 0:
+                        continue            # variant known from the callers of a helper: no aggregate in this body to look into
                     if v in ("FnFallible", "FnInfallible"):
                         rv = body.blocks[vbb]["s"][vsi]["rv"]
                         tgt = self._fn_const(body, defs, rv["xs"][0])
@@ -252,6 +256,36 @@ class PushGraph:
                             atags |= self._thunk_origin(body, defs, {"k": "copy", "l": a["l"], "p": []})
                     if "vs" in atags:
                         self.vscalls.append((node, ("F", n), h, site))
+
+    def _param_state_variants(self, node, body, op):
+        """a helper introduced after the reference tree that pushes a state it received as a parameter: the variants are the
+        ones its callers hand in"""
+        if node[0] != "F" or not self.F.is_new_fn(node[1]) or op["k"] not in ("copy", "move") or op["p"]:
+            return None
+        l = op["l"]
+        for _ in range(4):
+            if 1 <= l <= body.argc:
+                break
+            ds = [st["rv"] for bb, si, st in body.assigns() if st["p"]["l"] == l and not st["p"]["p"]]
+            if len(ds) == 1 and ds[0]["k"] == "use" and ds[0]["x"]["k"] in ("copy", "move") and not ds[0]["x"]["p"]:
+                l = ds[0]["x"]["l"]
+            else:
+                return None
+        if not (1 <= l <= body.argc):
+            return None
+        out = set()
+        for g in self.F.fn_list:
+            if g.crate.name != "rsjsonnet_lang":
+                continue
+            d2 = None
+            for bb, t in g.body.calls():
+                if (t["f"].get("r") or callee_name(t)) == node[1] and len(t["xs"]) >= l:
+                    d2 = d2 or self._defs(g.body)
+                    vs = self._state_variants(g.body, d2, t["xs"][l - 1])
+                    if vs is None:
+                        return None
+                    out |= {(v, -1, -1) for v, _, _ in vs}
+        return out or None
 
     def _consumers(self, body, defs, dmin, b, seen):
         """the states that run right after a `DoThunk(element)` pushed at block b, i.e. the consumers of the element's value: on
